@@ -373,6 +373,8 @@ def random_requests(rng, n):
             reqs.append((op, s, t))
         else:
             reqs.append(("conv", random_numeral(rng)))
+    for _ in range(n // 2):
+        reqs.append(("conv", random_numeral(rng)))      # numerals and near-numerals of the full grammar
     return reqs
 
 
